@@ -118,8 +118,11 @@ func TestC16(t *testing.T) {
 		for i := 0; i < r.N(60, 600); i++ {
 			slowCacheWrites(t, r, i)
 		}
+		for i := 0; i < r.N(40, 400); i++ {
+			realClientSlowService(t, r, i)
+		}
 	}
-	r.Require("lookups_disabled_cases", "lookups_enabled_cases", "shared_flights", "failed_lookups", "hang_bounded_callers", "retry_after_foreign_cancel", "successful_lookups", "stress_lookups", "cases_with_failing_cache", "handles_followed_a_later_poll", "real_client_cancel_cases", "overlapping_cache_writes")
+	r.Require("lookups_disabled_cases", "lookups_enabled_cases", "shared_flights", "failed_lookups", "hang_bounded_callers", "retry_after_foreign_cancel", "successful_lookups", "stress_lookups", "cases_with_failing_cache", "handles_followed_a_later_poll", "real_client_cancel_cases", "overlapping_cache_writes", "real_client_slow_service_cases")
 	r.Rule("seeded cases: AllowLookup on/off; 1-2 undeclared names each with a service mode (ok, slow D, fail, fail-then-ok, hang for ever, not found) and 1-6 callers (LookupSecret / NewUpdater / Fields.Apply) with start offsets and contexts (background, deadline 1 s/1 min/10 min, cancelled at a random instant). Distinct = (AllowLookup, service mode, number of callers, set of context kinds, set of caller outcomes)")
 }
 
@@ -774,4 +777,91 @@ func slowCacheWrites(t *testing.T, r *evid.Run, idx int) {
 			}
 		}
 	}()
+}
+
+// realClientSlowService: the REAL network client against a service that answers after D (virtual time), or
+// never. One lookup call is one request: whatever the client layer does about slow answers, a lookup that has
+// not been answered is not silently asked again, and a caller without deadline still returns within the limit.
+func realClientSlowService(t *testing.T, r *evid.Run, idx int) {
+	rng := r.Rand(uint64(12_000_000 + idx))
+	r.Eval(1)
+	dir := evid.TempDir(t)
+	synctest.Test(t, func(t *testing.T) {
+		d, err := realdb.Open(filepath.Join(dir, fmt.Sprintf("slow%d.db", idx)), realdb.DummyKey("c16"))
+		if err != nil {
+			t.Fatal(err)
+		}
+		su := realdb.Super()
+		d.Put(su, "known", []byte("k"))
+		d.Put(su, "slow", []byte("slow-value"))
+		srv, err := httpdrv.New(d)
+		if err != nil {
+			t.Fatal(err)
+		}
+		const addr = "100.64.0.16:17"
+		srv.SetWho(addr, httpdrv.Who{Login: "c16@verif", Node: "c16", Rules: []refmodel.Rule{{Actions: []string{"get"}, Patterns: []string{"*"}}}})
+		delay := []time.Duration{0, 3 * time.Second, 9 * time.Second, 12 * time.Second, 45 * time.Second, 2 * time.Minute, 4 * time.Minute, -1}[rng.IntN(8)] // -1: never
+		var mu sync.Mutex
+		var starts []time.Duration
+		t0 := time.Now()
+		inner := srv.ClientDo(addr)
+		slowOn := false
+		do := func(req *http.Request) (*http.Response, error) {
+			if slowOn && strings.HasSuffix(req.URL.Path, "/api/get") {
+				mu.Lock()
+				starts = append(starts, time.Since(t0))
+				mu.Unlock()
+				var wait <-chan time.Time
+				if delay >= 0 {
+					wait = time.After(delay)
+				}
+				select {
+				case <-wait:
+				case <-req.Context().Done():
+					return nil, req.Context().Err()
+				}
+			}
+			return inner(req)
+		}
+		cl := setec.Client{Server: "http://setec.verif", DoHTTP: do}
+		st, err := setec.NewStore(context.Background(), setec.StoreConfig{Client: cl, Secrets: []string{"known"}, AllowLookup: true, PollInterval: -1, Logf: func(string, ...any) {}})
+		if err != nil {
+			t.Fatal(err)
+		}
+		defer st.Close()
+		slowOn = true
+		ctx := context.Background()
+		ctxKind := "background"
+		if rng.IntN(3) == 0 {
+			var cancel context.CancelFunc
+			ctx, cancel = context.WithTimeout(ctx, 10*time.Minute)
+			defer cancel()
+			ctxKind = "deadline 10 min"
+		}
+		h, lerr := st.LookupSecret(ctx, "slow")
+		took := time.Since(t0)
+		synctest.Wait()
+		time.Sleep(6 * time.Minute) // anything the store still does on its own shows up in here
+		synctest.Wait()
+		mu.Lock()
+		n := len(starts)
+		log := append([]time.Duration(nil), starts...)
+		mu.Unlock()
+		r.Count("real_client_slow_service_cases", 1)
+		r.Distinct(fmt.Sprintf("real client, service answers after %v, caller %s", delay, ctxKind))
+		what := fmt.Sprintf("real-client case %d (service answers a lookup after %v, caller context: %s)", idx, delay, ctxKind)
+		if n != 1 {
+			r.Violation("automatic-retry", idx, fmt.Sprintf("%s: ONE LookupSecret call caused %d requests, at %v", what, n, log), nil)
+			return
+		}
+		answered := delay >= 0 && delay < 5*time.Minute
+		switch {
+		case answered && (lerr != nil || h == nil || string(h.Get()) != "slow-value"):
+			r.Violation("lookup-fails-although-answered", idx, fmt.Sprintf("%s: the request was answered but the caller got %v", what, lerr), nil)
+		case !answered && lerr == nil:
+			r.Violation("lookup-succeeds-unanswered", idx, what+": no answer ever came but the caller got a handle", nil)
+		case !answered && ctxKind == "background" && took > 5*time.Minute+time.Second:
+			r.Violation("lookup-unbounded", idx, fmt.Sprintf("%s: the caller had no deadline and was answered only after %v", what, took), nil)
+		}
+	})
 }
